@@ -152,8 +152,25 @@ func vC08Run(env *Zlisp, label string) {
 	c := vC08MakeCanary()
 	defer c.cleanup()
 	args := make([]Sexp, nargs)
+	wrapped := false
 	for i := range args {
-		args[i] = vC08Arg(env, vChoice("arg", vC08NArgs), c)
+		k := vChoice("arg", vC08NArgs)
+		args[i] = vC08Arg(env, k, c)
+		// a canary path or command may also arrive inside an array or a
+		// list (forms and functions that walk their arguments)
+		if i == 0 && k <= 2 {
+			switch vChoice("wrap", 4) {
+			case 1:
+				args[i] = vA(env, args[i])
+				wrapped = true
+			case 2:
+				args[i] = vL(args[i])
+				wrapped = true
+			case 3:
+				args[i] = vA(env, vA(env, args[i]))
+				wrapped = true
+			}
+		}
 	}
 	vSetStepBudget(400000)
 	vObserve("name", name)
@@ -162,7 +179,11 @@ func vC08Run(env *Zlisp, label string) {
 	q := func(x Sexp) Sexp { return vL(s("quote"), x) }
 	// the routes by which script text can reach a name
 	var forms []Sexp
-	switch vChoice("route", 7) {
+	route := vChoice("route", 7)
+	if wrapped && route != 0 && route != 1 && route != 3 {
+		vDone() // wrapped arguments: direct, eval and macro-expansion routes only (bound)
+	}
+	switch route {
 	case 0: // directly
 		forms = []Sexp{form}
 	case 1: // through eval
